@@ -840,5 +840,72 @@ def rule_exprkey(ctx):
     return r
 
 
-RULES = [rule_order, rule_pair, rule_multpair, rule_apply, rule_chunkkey, rule_combine, rule_copy, rule_cover, rule_freshchunk,
+def rule_nomutate(ctx):
+    """(seed C06_14) 'Combining the per-slice results reproduces the unsliced contraction' for every call, also the
+    second one on the same results (a retry, a checkpointed gather): the combining code must not write into the
+    per-slice values it is handed.  No augmented assignment, `out=` or element store whose target may alias a
+    parameter (directly, through an unpacking, an element, `next()` or a loop over it) in the adder and the gatherer."""
+    r = RuleResult("C06-NOMUTATE", "combining slices never writes into the per-slice results", 2)
+    tc = tree_class(ctx)
+    funcs = [ctx.p.func(C.CORE, "add_maybe_exponent_stripped"), tc.lookup("gather_slices")]
+    C.require(all(f is not None for f in funcs), "add_maybe_exponent_stripped / gather_slices not found")
+    for f in funcs:
+        fl = ctx.flow(f)
+        params = {a.arg for a in f.node.args.posonlyargs + f.node.args.args + f.node.args.kwonlyargs} - {"self", "backend", "progbar"}
+
+        def alias(e, at, depth=0):
+            if depth > 6 or e is None:
+                return False
+            if isinstance(e, ast.Name):
+                for d in fl.defs_reaching(e.id, at):
+                    if d.kind == "param":
+                        if e.id in params:
+                            return True
+                    elif d.kind in ("assign", "iter", "for", "with") and d.value is not None and alias(d.value, d.node, depth + 1):
+                        return True
+                return False
+            if isinstance(e, (ast.Subscript, ast.Starred)):
+                return alias(e.value, at, depth + 1)
+            if isinstance(e, (ast.Tuple, ast.List)):
+                return any(alias(x, at, depth + 1) for x in e.elts)
+            if isinstance(e, ast.IfExp):
+                return alias(e.body, at, depth + 1) or alias(e.orelse, at, depth + 1)
+            if isinstance(e, ast.Call) and dotted(e.func) in ("next", "iter", "enumerate", "zip", "reversed", "tuple", "list") and e.args:
+                return any(alias(a, at, depth + 1) for a in e.args)
+            return False
+
+        bad = []
+        for n in fl.cfg.nodes:
+            st = n.ast
+            if n.kind != "stmt" or st is None:
+                continue
+            if isinstance(st, ast.AugAssign):
+                tgt = st.target
+                base = tgt
+                while isinstance(base, (ast.Subscript, ast.Attribute)):
+                    base = base.value
+                if isinstance(base, ast.Name) and alias(base, n.id):
+                    bad.append((st, f"`{C.unparse(st)}` updates `{base.id}` in place"))
+            elif isinstance(st, ast.Assign):
+                for t in st.targets:
+                    if isinstance(t, ast.Subscript):
+                        base = t.value
+                        while isinstance(base, (ast.Subscript, ast.Attribute)):
+                            base = base.value
+                        if isinstance(base, ast.Name) and alias(base, n.id):
+                            bad.append((st, f"`{C.unparse(st, 60)}` stores into `{base.id}`"))
+            for c in (x for x in fl._own_exprs(n) for x in walk_local(x) if isinstance(x, ast.Call)):
+                for kw in c.keywords:
+                    if kw.arg == "out" and alias(kw.value, n.id):
+                        bad.append((c, f"`{C.unparse(c, 60)}` writes its result into `{C.unparse(kw.value)}`"))
+        k = ctx.key(f, "C06-NOMUTATE")
+        if bad:
+            r.violation(k, C.loc(f, bad[0][0]), f"{bad[0][1]}, which may be one of the per-slice results the caller passed: the stored slice "
+                        "is no longer the contraction for its slice number and combining the same results again gives a different total")
+        else:
+            r.ok(k, f.loc, "no in-place write on a value that may alias a parameter")
+    return r
+
+
+RULES = [rule_nomutate, rule_order, rule_pair, rule_multpair, rule_apply, rule_chunkkey, rule_combine, rule_copy, rule_cover, rule_freshchunk,
          rule_radix, rule_stack, rule_exprkey]
